@@ -364,3 +364,11 @@ case("C04", "C04-maxpool-keyword-spelling", "HOLDS", [(D, "\t\t_, indices = pool
 case("C06", "args-skip-gather-when-same-length", "VIOLATION", [(D, "tuple([a[Xi].to(device) ", "tuple([(a if len(a) == len(Xi) else a[Xi]).to(device) ")], "R-ARGWIN")
 for _p in ("C04", "C05"):
     case(_p, _p + "-ratio-clamped", "VIOLATION", [(D, "\tdelta = delta_out / delta_in\n\tidxs = torch.abs(delta_in) < 1e-6\n\n\treturn (torch.where(idxs, grad_input[0], grad_output[0] * delta),)", "\tdelta = torch.clamp(delta_out / delta_in, 0, 1)\n\tidxs = torch.abs(delta_in) < 1e-6\n\n\treturn (torch.where(idxs, grad_input[0], grad_output[0] * delta),)")], "R-TERM", "deep_lift_shap._nonlinear")
+case("C18", "spacing-break-assumes-sorted", "VIOLATION", [(AN, "\t\t\t\t\td = start1 - end0\n\t\t\t\t\tif d < 0 or d >= max_distance:\n\t\t\t\t\t\tcontinue", "\t\t\t\t\td = start1 - end0\n\t\t\t\t\tif d >= max_distance:\n\t\t\t\t\t\tbreak\n\t\t\t\t\tif d < 0:\n\t\t\t\t\t\tcontinue")], "PAIRS", note="seed C18-1: early exit assumes rows sorted by start")
+IO = "tangermeme/io.py"
+case("C16", "filter-truthiness-threshold", "VIOLATION", [(IO, "if max_counts is not None and signal[target_idx].sum() > max_counts:", "if max_counts and signal[target_idx].sum() > max_counts:")], "FILTER", note="seed C16-1: threshold 0 disables the filter")
+case("C16", "filter-hoisted-sum", "HOLDS", [(IO, "\t\t\tif min_counts is not None and signal[target_idx].sum() < min_counts:", "\t\t\tcounts = signal[target_idx].sum()\n\t\t\tif min_counts is not None and counts < min_counts:"), (IO, "if max_counts is not None and signal[target_idx].sum() > max_counts:", "if max_counts is not None and max_counts < counts:")], note="hoisted sum and flipped comparison are equivalent")
+MT = "tangermeme/match.py"
+case("C17", "signal-filter-truthiness", "VIOLATION", [(MT, "\tif bigwig is not None:\n\t\tassert(in_window >= out_window)", "\tif bigwig is not None and signal_threshold:\n\t\tassert(in_window >= out_window)")], "SIGNAL", note="seed C17-1: threshold 0.0 is falsy")
+case("C20", "baseline-loss-unmasked", "VIOLATION", [("tangermeme/design.py", "loss_prev = loss(y[:, mask], y_orig[:, mask]).mean()", "loss_prev = loss(y, y_orig).mean()")], "R-SIB", note="seed C20-1")
+case("C15", "N-test-by-tie-count", "VIOLATION", [("tangermeme/utils.py", "n_inds = numpy.where(pwm.sum(axis=0)==0)[0]", "n_inds = numpy.where((pwm == pwm.max(axis=0, keepdims=True)).sum(axis=0) == len(alphabet))[0]")], "DECODE", note="seed C15-1")
